@@ -25,6 +25,8 @@ pub mod c15;
 pub mod netkit;
 pub mod c16;
 pub mod c17;
+pub mod c18;
+pub mod c20;
 pub mod server_model;
 
 #[derive(Clone, Copy, Debug, PartialEq)]
@@ -158,7 +160,7 @@ pub struct Property {
 }
 
 pub fn all() -> Vec<Property> {
-    vec![c01::property(), c02::property(), c03::property(), c04::property(), c05::property(), c06::property(), c07::property(), c08::property(), c09::property(), c11::property(), c12::property(), c13::property(), c14::property(), c15::property(), c16::property(), c17::property()]
+    vec![c01::property(), c02::property(), c03::property(), c04::property(), c05::property(), c06::property(), c07::property(), c08::property(), c09::property(), c11::property(), c12::property(), c13::property(), c14::property(), c15::property(), c16::property(), c17::property(), c18::property(), c20::property()]
 }
 
 pub fn get(id: &str) -> Option<Property> {
